@@ -15,7 +15,7 @@ source" are theorems about the one-memory machine (`c16_noninterference`,
 `c16_clone_independent`), where sharing would be visible; `c16_heap_refines` transports the
 per-operation theorems to it.
 -/
-import Golib.Proof.C16History
+import Golib.Proof.C16Bank
 
 namespace Golib.C16
 
@@ -148,6 +148,45 @@ theorem c16_history (ops : List SOp) (b : Bits) (hi : b.Inv) :
   refine ⟨b', hr, fun m => by rw [contains_spec, hm], fun m => by rw [mem_members, hm],
     members_sorted _, hi', len_eq_card _, iterAll_eq_members _, (c16_range_eq b'.bm (fun _ => true)).2⟩
 
+/-- **The whole register bank against a bank of mathematical sets.**  `memOf s q m` says "m is
+a member of register q".  (1) Every successful step — any operation on any of the registers,
+any kinds, any operand combination including `x.Merge(x)`, the element-operation loops and the
+re-ranged `All()` value, interleaved in any order with iterator operations — transforms the
+bank of sets by `specEffect` (the target register gets the set-theoretic result, every other
+register keeps its set).  (2) Hence after ANY list of operations the bank holds `specHistory`.
+(3) Observations in every state: `Contains` answers the bank's predicate; a drained fresh
+iterator yields the ascending members; one `Next` of a live iterator, whatever was done to its
+register since it was made, answers false iff nothing `≥` its cursor is left and otherwise
+moves to the least such member, which `Value` reports.  (4) In every bank state reachable from
+zero-valued registers of any kinds every cached length is exact, and `Len()` of every register
+answers the number of members.  (`Range`/`All`: `c16_range_eq`.) -/
+theorem c16_bank_history :
+    (∀ (s s' : St) (op : Op) (out : String), step s op = .ok s' out →
+      ∀ q m, memOf s' q m = specEffect op (memOf s) q m) ∧
+    (∀ (ops : List Op) (s s' : St) (outs : List String), runBank s ops = some (s', outs) →
+      ∀ q m, memOf s' q m = specHistory ops (memOf s) q m) ∧
+    (∀ (s : St) (r n : Nat) (o : Obj), s.regs[r]? = some o →
+      step s (.contains r n) = .ok s (Golib.Proto.showBool (memOf s r n)) ∧
+      step s (.iterall r) = .ok s (Golib.Proto.showNats (members o.words)) ∧
+      (∀ m, m ∈ members o.words ↔ memOf s r m = true)) ∧
+    (∀ (regs0 : List Obj) (s : St),
+      (∀ o ∈ regs0, o = .bits Bits.empty ∨ o = .bitmap Bitmap.empty ∨ o = .dsz DBits.empty) →
+      BReach regs0 s → BankInv s ∧
+        ∀ (r : Nat) (o : Obj), s.regs[r]? = some o →
+          step s (.len r) = .ok s (toString ((members o.words).length : Int))) ∧
+    (∀ (ws : List W) (it : Iter), (if it.read then it.j + 1 else it.j) ≤ 64 →
+      (pending ws it.i (if it.read then it.j + 1 else it.j) = [] ∧ (Iter.next ws it).2 = false) ∨
+      (∃ i' j', j' < 64 ∧ Iter.next ws it = (⟨i', j', true⟩, true) ∧
+        pending ws it.i (if it.read then it.j + 1 else it.j) = (64 * i' + j') :: pending ws i' (j' + 1) ∧
+        (⟨i', j', true⟩ : Iter).value = 64 * i' + j')) :=
+  ⟨step_effect, fun ops s s' outs h => runBank_effect ops s s' outs h,
+   fun s r n o hr => ⟨obs_contains s r n o hr, obs_iterall s r o hr,
+     fun m => by rw [mem_members]; simp [memOf, hr]⟩,
+   fun regs0 s h0 hr =>
+     have hi := breach_inv regs0 (bankInv_zero regs0 h0) s hr
+     ⟨hi, fun r o ho => obs_len s r o ho (hi r o ho)⟩,
+   obs_next⟩
+
 /-! ### the one-memory machine -/
 
 /-- **The one-memory machine refines the by-value machine.**  For every growth function of
@@ -240,6 +279,12 @@ example : Bits.Reachable (Bits.merge Bits.empty ⟨exWords⟩) := .step _ _ .ini
 example : (runAll Bits.empty [.add 63, .add 64, .add 63, .merge ⟨exWords⟩, .remove 64, .remove 7,
     .intersect ⟨[~~~ 0#64]⟩]).map (fun r => (r.2, members r.1.bm.set, r.1.len)) =
     some ([some true, some true, some false, none, some true, some false, none], [63], 1) := by decide
+/-- a bank history over three registers of different kinds with a self-operand and a clone -/
+example : (runBank ⟨[.bits Bits.empty, .bitmap Bitmap.empty, .dsz DBits.empty], [none, none]⟩
+    [.add 0 63, .add 0 64, .add 2 5, .merge 1 0, .remove 0 64, .diff 1 1, .clone 1 0, .addn 1 100 64 3,
+     .contains 1 63, .contains 0 64, .iterall 1, .iterall 2]).map (·.2) =
+    some ["true", "true", "ok", "ok", "true", "ok", "ok", "3", "true", "false", "[63 100 164 228]", "[5]"] := by
+  decide
 /-- a run of the one-memory machine in which register 0 is re-allocated (Merge appends beyond
 capacity), register 2 becomes a clone, and `x.Diff(x)` runs on a shared header copy -/
 example : (hrunList goGrow8 (HSt.init [.bits, .bits, .bitmap])
